@@ -1106,10 +1106,11 @@ class C07(LinesBase):
 # C03 — all-or-nothing validation
 # ==========================================================================================
 
-def canonical_file(rng):
-    chains = ch.gen_file(rng, max_chains=4)
+def canonical_file(rng, zero_prob=0.0):
+    chains = ch.gen_file(rng, max_chains=4, zero_prob=zero_prob)
     for c in chains:
-        c.blocks = [(max(1, s), dt, dq) for s, dt, dq in c.blocks]
+        if not zero_prob:
+            c.blocks = [(max(1, s), dt, dq) for s, dt, dq in c.blocks]
         c.ref.end = c.ref.start + c.ref_extent()
         c.qry.end = c.qry.start + c.qry_extent()
     ch.fix_sizes(rng, chains)
@@ -1225,8 +1226,9 @@ class C03(Prop):
             "structural; distinct by (file, corruption)")
 
     def cases(self, rng, tier):
-        for _ in range(40 if tier == "quick" else 1500):
-            cs = canonical_file(rng)
+        for k in range(40 if tier == "quick" else 1500):
+            # every third file is well-formed but not canonical: it has zero-size blocks that carry gaps
+            cs = canonical_file(rng, zero_prob=0.25 if k % 3 == 2 else 0.0)
             yield {"kind": "canonical", "chains": cs, "label": "canonical", "lines": file_lines(cs)[0]}
             for label, lines in mutations(rng, cs):
                 yield {"kind": "mutated", "chains": cs, "label": label, "lines": lines}
@@ -1984,7 +1986,9 @@ class C06(Prop):
         import os
         unacc, removed, sharing = inventory.compare(os.path.join(os.path.dirname(os.path.dirname(__file__)), "lean", "panic_sites.json"))
         self.inventory = {"unaccounted": unacc, "removed": removed}
-        self.unaccounted = unacc
+        if unacc:
+            return [("corr", "source inventory: panic-capable sites in /repo/src that the model does not account for "
+                             "(lean/panic_sites.json): " + "; ".join(unacc))]
         return []
 
     def cases(self, rng, tier):
@@ -2065,9 +2069,6 @@ class C06(Prop):
                 ev.corr = "model panics, implementation does not: " + m[:200]
             if any(t in i for t in ("E ", "err", "none", "io", "utf8")):
                 ev.nontrivial = hash(req)
-        if getattr(self, "unaccounted", None) and not getattr(self, "_reported", False):
-            self._reported = True
-            ev.corr = "source inventory: panic-capable sites not accounted for by the model: " + "; ".join(self.unaccounted)
         return ev
 
     def shrink(self, case):
